@@ -1,3 +1,4 @@
+import PedVerif.Props.CheckerIR
 import PedVerif.Lemmas.CheckerEnvs
 import PedVerif.Props.Callable
 /-!
@@ -30,12 +31,19 @@ theorem verdict_exact (env : Env) (orc : Nat → Val → Raw) (hw : WfEnv env) (
     checkType env orc a v = if conforms env a v then .accept else .reject :=
   exact_checkType env orc hw a v hok hwf hp
 
+/-- `verdict_exact` with the two exclusions of `plain` named: no NamedTuple instance (region `namedtupleVsPlainClass`: the `_asdict`
+    branch replaces isinstance) and no one-shot iterator (region `iteratorItemsUnchecked`: accepted whatever its pending items are) -/
+theorem verdict_exact_split (env : Env) (orc : Nat → Val → Raw) (hw : WfEnv env) (a : Ann) (v : Val)
+    (hok : a.okC env = true ∨ a = .none) (hwf : v.wf env = true) (hnt : v.hasNT = false) (hit : v.hasIter = false) :
+    checkType env orc a v = if conforms env a v then .accept else .reject :=
+  verdict_exact env orc hw a v hok hwf (plain_of hnt hit)
+
 /-! ### spelling independence -/
 
 /-- forget how generics and unions are spelled (typing.List[int] vs list[int]; Optional[X] vs Union[X, None] vs X | None) -/
 def Ann.erase : Ann → Ann
   | .union _ ms => .union .union (eraseL ms)
-  | .typeOf _ a => .typeOf .typing a
+  | .typeOf _ a => .typeOf .typing a.erase        -- also inside Type[..]: Type[Union[A, B]] vs type[A | B]
   | .seq _ o a => .seq .typing o a.erase
   | .map _ o k w => .map .typing o k.erase w.erase
   | .tuple _ items => .tuple .typing (eraseL items)
@@ -44,6 +52,16 @@ def Ann.erase : Ann → Ann
 where eraseL : List Ann → List Ann
   | [] => []
   | a :: as => a.erase :: eraseL as
+
+/-- the class-level relation of `Type[..]` does not look at spellings -/
+theorem memberSpec_erase (env : Env) (c : ClsId) (m : Ann) : memberSpec env c m.erase = memberSpec env c m := by
+  cases m <;> simp [Ann.erase, memberSpec]
+theorem subSpec_erase (env : Env) (c : ClsId) (a : Ann) : subSpec env c a.erase = subSpec env c a := by
+  cases a <;> simp [Ann.erase, subSpec]
+  rename_i sp ms
+  induction ms with
+  | nil => simp [Ann.erase.eraseL]
+  | cons m ms ih => simp [Ann.erase.eraseL, memberSpec_erase, ih]
 
 theorem conforms_erase (env : Env) :
     (∀ a v, conforms env a.erase v = conforms env a v) ∧
@@ -69,7 +87,7 @@ theorem conforms_erase (env : Env) :
         = (fun (kv : Val × Val) => conforms env k kv.1 && conforms env w kv.2) := by
       funext kv; rw [ihk kv, ihw kv]
     rw [this]
-  all_goals (intros; simp_all [Ann.erase, Ann.erase.eraseL, conforms, conformsAny, conformsZip])
+  all_goals (intros; simp_all [Ann.erase, Ann.erase.eraseL, conforms, conformsAny, conformsZip, subSpec_erase])
 
 /-- **C02 (spelling).** Two spellings of one annotation give the same verdict for every value. -/
 theorem spelling_invariant (env : Env) (orc : Nat → Val → Raw) (hw : WfEnv env) (a a' : Ann) (v : Val)
@@ -105,6 +123,78 @@ theorem union_order_invariant (env : Env) (orc : Nat → Val → Raw) (hw : WfEn
     checkType env orc (.union sp ms) v = checkType env orc (.union sp' ms') v := by
   rw [verdict_exact env orc hw _ v (Or.inl hok) hwf hp, verdict_exact env orc hw _ v (Or.inl hok') hwf hp]
   simp only [conforms, conformsAny_eq_any, perm_any _ hperm]
+
+mutual
+/-- **the same annotation up to the spelling of every node and the order of the members of every Union, at any depth**
+    (`List[Union[int, str]]` ~ `list[str | int]`, `Dict[str, Optional[Tuple[A | B, ...]]]` ~ …, also inside `Type[..]`) -/
+inductive UReorder : Ann → Ann → Prop
+  | refl (a : Ann) : UReorder a a
+  | union (sp sp' : USpell) (ms ms' ms'' : List Ann) : UReorderL ms ms' → ms'.Perm ms'' → UReorder (.union sp ms) (.union sp' ms'')
+  | typeOf (sp sp' : Spell) (a a' : Ann) : UReorder a a' → UReorder (.typeOf sp a) (.typeOf sp' a')
+  | seq (sp sp' : Spell) (o : SeqOrigin) (a a' : Ann) : UReorder a a' → UReorder (.seq sp o a) (.seq sp' o a')
+  | map (sp sp' : Spell) (o : MapOrigin) (k k' w w' : Ann) : UReorder k k' → UReorder w w' → UReorder (.map sp o k w) (.map sp' o k' w')
+  | tuple (sp sp' : Spell) (items items' : List Ann) : UReorderL items items' → UReorder (.tuple sp items) (.tuple sp' items')
+  | tupleVar (sp sp' : Spell) (a a' : Ann) : UReorder a a' → UReorder (.tupleVar sp a) (.tupleVar sp' a')
+inductive UReorderL : List Ann → List Ann → Prop
+  | nil : UReorderL [] []
+  | cons (a a' : Ann) (as as' : List Ann) : UReorder a a' → UReorderL as as' → UReorderL (a :: as) (a' :: as')
+end
+
+/-- the specification does not see spellings or the order of Union members, however deep -/
+theorem conforms_ureorder (env : Env) :
+    (∀ a a', UReorder a a' → (∀ v, conforms env a v = conforms env a' v) ∧ (∀ c, memberSpec env c a = memberSpec env c a') ∧
+        (∀ c, subSpec env c a = subSpec env c a')) ∧
+    (∀ as as', UReorderL as as' → (∀ xs, conformsZip env as xs = conformsZip env as' xs) ∧ (∀ v, conformsAny env as v = conformsAny env as' v) ∧
+        (∀ c, as.any (memberSpec env c) = as'.any (memberSpec env c))) := by
+  have key := @UReorder.rec
+    (motive_1 := fun a a' _ => (∀ v, conforms env a v = conforms env a' v) ∧ (∀ c, memberSpec env c a = memberSpec env c a') ∧
+        (∀ c, subSpec env c a = subSpec env c a'))
+    (motive_2 := fun as as' _ => (∀ xs, conformsZip env as xs = conformsZip env as' xs) ∧ (∀ v, conformsAny env as v = conformsAny env as' v) ∧
+        (∀ c, as.any (memberSpec env c) = as'.any (memberSpec env c)))
+    (fun a => ⟨fun _ => rfl, fun _ => rfl, fun _ => rfl⟩)
+    (fun sp sp' ms ms' ms'' _ hperm ih => by
+      refine ⟨fun v => ?_, fun c => by simp [memberSpec], fun c => ?_⟩
+      · simp only [conforms, ih.2.1 v, conformsAny_eq_any, perm_any _ hperm]
+      · simp only [subSpec, ih.2.2 c, perm_any _ hperm])
+    (fun sp sp' a a' _ ih => ⟨fun v => by simp only [conforms, ih.2.2], fun c => by simp [memberSpec], fun c => by simp [subSpec]⟩)
+    (fun sp sp' o a a' _ ih => ⟨fun v => by simp only [conforms, ih.1], fun c => by simp [memberSpec], fun c => by simp [subSpec]⟩)
+    (fun sp sp' o k k' w w' _ _ ihk ihw => ⟨fun v => by simp only [conforms, ihk.1, ihw.1], fun c => by simp [memberSpec], fun c => by simp [subSpec]⟩)
+    (fun sp sp' items items' _ ih => ⟨fun v => by simp only [conforms, ih.1], fun c => by simp [memberSpec], fun c => by simp [subSpec]⟩)
+    (fun sp sp' a a' _ ih => ⟨fun v => by simp only [conforms, ih.1], fun c => by simp [memberSpec], fun c => by simp [subSpec]⟩)
+    ⟨fun _ => rfl, fun _ => rfl, fun _ => rfl⟩
+    (fun a a' as as' _ _ ih ihl => by
+      refine ⟨fun xs => ?_, fun v => by simp only [conformsAny, ih.1 v, ihl.2.1 v], fun c => by simp only [List.any_cons, ih.2.1 c, ihl.2.2 c]⟩
+      cases xs with
+      | nil => simp [conformsZip]
+      | cons x xs => simp only [conformsZip, ih.1 x, ihl.1 xs])
+  refine ⟨fun a a' h => key h, ?_⟩
+  intro as
+  induction as with
+  | nil => intro as' h; cases h; exact ⟨fun _ => rfl, fun _ => rfl, fun _ => rfl⟩
+  | cons a as ih =>
+    intro as' h
+    cases h with
+    | cons _ a' _ as'' h1 h2 =>
+      have p1 := key h1
+      have p2 := ih as'' h2
+      refine ⟨fun xs => ?_, fun v => by simp only [conformsAny, p1.1 v, p2.2.1 v], fun c => by simp only [List.any_cons, p1.2.1 c, p2.2.2 c]⟩
+      cases xs with
+      | nil => simp [conformsZip]
+      | cons x xs => simp only [conformsZip, p1.1 x, p2.1 xs]
+
+/-- **C02 (spelling and order of Union members, at any depth).**  Two annotations that differ only in how their nodes are spelled and
+    in the order of the members of their Unions - anywhere inside, also under `Type[..]` - get the same verdict for every value. -/
+theorem reorder_invariant (env : Env) (orc : Nat → Val → Raw) (hw : WfEnv env) (a a' : Ann) (v : Val) (h : UReorder a a')
+    (hok : a.okC env = true) (hok' : a'.okC env = true) (hwf : v.wf env = true) (hp : v.plain = true) :
+    checkType env orc a v = checkType env orc a' v := by
+  rw [verdict_exact env orc hw a v (Or.inl hok) hwf hp, verdict_exact env orc hw a' v (Or.inl hok') hwf hp,
+    ((conforms_ureorder env).1 a a' h).1 v]
+
+-- non-vacuity: List[Union[int, str]] ~ list[str | int]; Dict[str, Optional[Tuple[int | str, ...]]] reordered two levels down
+example : UReorder (.seq .typing .list (.union .union [.cls 2, .cls 3])) (.seq .pep585 .list (.union .pipe [.cls 3, .cls 2])) :=
+  .seq _ _ _ _ _ (.union _ _ _ _ _ (.cons _ _ _ _ (.refl _) (.cons _ _ _ _ (.refl _) .nil)) (List.Perm.swap _ _ _))
+example : checkType envC (fun _ _ => .raisedOther) (.seq .typing .list (.union .union [.cls 2, .cls 3])) (.coll 4 [.lit (.str [97]), .lit (.int 1)]) = .accept ∧
+    checkType envC (fun _ _ => .raisedOther) (.seq .pep585 .list (.union .pipe [.cls 3, .cls 2])) (.coll 4 [.lit (.str [97]), .lit (.int 1)]) = .accept := by decide
 
 /-- the same collection / mapping object up to the order in which it yields its elements / items -/
 inductive TopPerm : Val → Val → Prop
@@ -186,6 +276,17 @@ theorem typeOf_union_exact (env : Env) (orc : Nat → Val → Raw) (hw : WfEnv e
 /-- … e.g. `bool` for `Type[Union[int, str]]` -/
 example : conforms envC (.typeOf .typing (.union .union [.cls 2, .cls 3])) (.clsObj 12) = true ∧
     checkType envC (fun _ _ => .raisedOther) (.typeOf .typing (.union .union [.cls 2, .cls 3])) (.clsObj 12) = .accept := by decide
+
+/-- region `typeOfNonClass` (outside the vocabulary "Type[C]", recorded by the driver): under `Type[Union[..]]` a member that is a
+    PEP 585 alias is compared with `issubclass(value, list[int])`, which raises TypeError and counts as False, while the typing
+    spelling `List[int]` is compared through its origin class: `Type[Union[list[int], str]]` rejects the class `list` that
+    `Type[Union[List[int], str]]` accepts (and that conforms: a class object conforms to a generic member by its origin class) -/
+theorem complete_fails_typeOfPep585Member :
+    checkType envC (fun _ _ => .raisedOther) (.typeOf .typing (.union .union [.seq .pep585 .list (.cls 2), .cls 3])) (.clsObj 4) = .reject ∧
+    checkType envC (fun _ _ => .raisedOther) (.typeOf .typing (.union .union [.seq .typing .list (.cls 2), .cls 3])) (.clsObj 4) = .accept ∧
+    conforms envC (.typeOf .typing (.union .union [.seq .pep585 .list (.cls 2), .cls 3])) (.clsObj 4) = true ∧
+    (Ann.typeOf .typing (.union .union [.seq .pep585 .list (.cls 2), .cls 3])).hasTypeOfNonClass = true ∧
+    (Val.clsObj 4).wf envC = true := by decide
 
 theorem Complete_full_is_false : ¬ Complete_full := by
   intro h
